@@ -408,7 +408,15 @@ func (g *qgen) extend(src *qnode) *qnode {
 		}
 		q.ecols = append(q.ecols, name)
 		q.exprs = append(q.exprs, e)
-		avail = append(avail, colT{name: name, typ: e.typ, null: e.null})
+		used := map[string]bool{}
+		e.columns(used)
+		inexact := false
+		for _, c := range avail {
+			if used[c.name] && c.inexact {
+				inexact = true
+			}
+		}
+		avail = append(avail, colT{name: name, typ: e.typ, null: e.null, inexact: inexact})
 	}
 	q.out = avail
 	return q
@@ -440,7 +448,7 @@ func (g *qgen) summarize(src *qnode) *qnode {
 			var cand []colT
 			for _, n := range onCand {
 				c, _ := src.outCol(n)
-				if (op == "total" || op == "average") && c.typ != tNum {
+				if (op == "total" || op == "average") && (c.typ != tNum || c.inexact) {
 					continue
 				}
 				cand = append(cand, c)
@@ -542,9 +550,11 @@ func (q *qnode) setSummarizeOut() {
 		switch op {
 		case "min", "max":
 			oc, _ := q.src.outCol(q.sons[i])
-			c.typ, c.null = oc.typ, oc.null
+			c.typ, c.null, c.inexact = oc.typ, oc.null, oc.inexact
 		case "list":
 			c.typ = tObj
+		case "average":
+			c.inexact = true
 		}
 		q.out = append(q.out, c)
 	}
@@ -588,7 +598,18 @@ func (g *qgen) join(op string, l, r *qnode) *qnode {
 		r = q
 	}
 	q := &qnode{op: op, src: l, src2: r, by: rng(g.t, "by", 0, 4) == 0}
-	q.out = append(q.out, l.out...)
+	// a where above the join is pushed to both operands, so a common column
+	// only keeps its type class if both operands agree on it
+	for _, c := range l.out {
+		if rc, ok := r.outCol(c.name); ok {
+			if rc.typ != c.typ {
+				c.typ = tMix
+			}
+			c.null = c.null || rc.null
+			c.inexact = c.inexact || rc.inexact
+		}
+		q.out = append(q.out, c)
+	}
 	if op != "semijoin" {
 		for _, c := range r.out {
 			if _, ok := l.outCol(c.name); !ok {
@@ -702,12 +723,12 @@ func (g *qgen) compatible(op string, l *qnode, rdepth int) *qnode {
 	// a column is nullable/mixed if it is on either side
 	for _, c := range l.out {
 		rc, _ := r.outCol(c.name)
-		if op == "union" {
-			if rc.typ != c.typ {
-				c.typ = tMix
-			}
-			c.null = c.null || rc.null
+		// (also for intersect/minus: a where above is distributed to both operands)
+		if rc.typ != c.typ {
+			c.typ = tMix
 		}
+		c.null = c.null || rc.null
+		c.inexact = c.inexact || rc.inexact
 		q.out = append(q.out, c)
 	}
 	return q
